@@ -534,12 +534,24 @@ def cover_start():
         for c in code.co_consts:
             if isinstance(c, types.CodeType):
                 arm(c)
-    for o in gc.get_objects():
-        c = getattr(o, "__code__", None) if isinstance(o, (types.FunctionType, types.MethodType)) else None
-        if isinstance(c, types.CodeType) and c.co_filename.startswith(srcdir) and "/test_" not in c.co_filename:
-            arm(c)
-    _COV["armed"] = len(seen)
+    def arm_all():
+        for o in gc.get_objects():
+            c = getattr(o, "__code__", None) if isinstance(o, (types.FunctionType, types.MethodType)) else None
+            if isinstance(c, types.CodeType) and c.co_filename.startswith(srcdir) and "/test_" not in c.co_filename:
+                arm(c)
+        _COV["armed"] = len(seen)
+    arm_all()
+    _COV["arm_all"] = arm_all
     return True
+
+
+def cover_arm_late():
+    """arm the code objects created after cover_start (a check that imports a private copy of a module of src/ecdsa)"""
+    if _COV.get("on") and _COV.get("arm_all"):
+        try:
+            _COV["arm_all"]()
+        except Exception:
+            pass
 
 
 def _anchor_files(pid):
@@ -571,9 +583,10 @@ def cover_report(pid):
     except OSError:
         pass
     try:
-        dead = json.load(open(os.path.join(VERIF, "harness", "dead_sites.json")))["dead_functions"]
+        ds = json.load(open(os.path.join(VERIF, "harness", "dead_sites.json")))
+        dead, unreach = ds.get("dead_functions", []), ds.get("unreachable_raises", [])
     except Exception:
-        dead = []
+        dead, unreach = [], []
     rep = {"available": True, "how": "sys.monitoring LINE events on src/ecdsa code objects during the correspondence and search stages of this run (forked workers included)",
            "files": {}, "code_objects_armed": _COV.get("armed", 0)}
     tot = {"lines": 0, "lines_reached": 0, "functions": 0, "functions_entered": 0, "raise_sites": 0, "raise_sites_reached": 0}
@@ -594,7 +607,7 @@ def cover_report(pid):
             continue
         srcl = src.split("\n")
         fr = {"lines": 0, "lines_reached": 0, "functions": 0, "functions_entered": 0, "raise_sites": 0,
-              "raise_sites_reached": 0, "raise_sites_unreached": [], "functions_not_entered": []}
+              "raise_sites_reached": 0, "raise_sites_unreached": [], "raise_sites_unreachable_by_proof": [], "functions_not_entered": []}
 
         def visit(node, qual):
             for ch in ast.iter_child_nodes(node):
@@ -625,7 +638,14 @@ def cover_report(pid):
                             if (fn, l) in hit:
                                 fr["raise_sites_reached"] += 1
                             else:
-                                fr["raise_sites_unreached"].append("%s:%d %s: %s" % (fn, l, q, srcl[l - 1].strip()[:90]))
+                                text = " ".join(x.strip() for x in srcl[l - 1:l + 2])
+                                why = next((u["why"] for u in unreach if u["file"] == fn and u["function"] == q and u["contains"] in text
+                                            and (not u.get("properties") or pid in u["properties"])), None)
+                                desc = "%s:%d %s: %s" % (fn, l, q, srcl[l - 1].strip()[:90])
+                                if why:
+                                    fr["raise_sites_unreachable_by_proof"].append(desc + "  -- " + why)
+                                else:
+                                    fr["raise_sites_unreached"].append(desc)
                     visit(ch, q)
                 elif isinstance(ch, ast.ClassDef):
                     visit(ch, (qual + "." if qual else "") + ch.name)
